@@ -340,3 +340,50 @@ CHECKS['C08'].update({
     'technique': "Lean 4 relational (two-run) simulation proof over all strings on a faithful parser model + capture-invisibility of the regex "
                  "semantics + capture counting; translate-vs-match API search",
 })
+CHECKS['C01'].update({
+    'text': "Theorems (Lean): C01_faithful — on the FAITHFUL PORT of WcParse (fnmatch mode, Unix rules, EXTMATCH; DOTMATCH, case mode, capture, "
+            "str/bytes arbitrary), for every pattern g of the documented grammar in normal form (literals, ?, *, brackets with negation / ranges / "
+            "POSIX classes, extended groups nested to any depth, and one top-level `!(...)` followed by literal text — the stated scope) and every "
+            "non-empty name: the regex the port emits for the PRINTED pattern fully matches the name iff the name is in the documented language "
+            "Pat.Lang, minus the two recorded defects (D1 repeated group at the start, D3 `$` in the look-ahead; witnessed). It is obtained from "
+            "pass_print (the port run on print g yields a regex Re.M-equivalent to the tidy compiler's `wrap (comp g)`: continuation-style "
+            "induction through rootLoop / parseExtend / extLoop / sequence, all four stages), C01_partial (compiler correctness of `comp`, all "
+            "patterns and names) and parsePat_print (the strict reader inverts the printer). POSIX tables of posix.py proved equal to the "
+            "documented classes. Tie: regex-TEXT equality WcParse vs the port (K1, incl. bracket token families), AST equality port vs tidy "
+            "compiler (K1', now also a theorem for printed patterns), re.fullmatch vs the model matcher (K2). Search: the executable "
+            "specification (proved = the declarative one) vs fnmatch / filter / compile().match on grammar patterns and bracket families.",
+    'note': TB + "the theorem covers the canonical spelling `print g` of each pattern; other spellings the strict reader accepts (`\\\\a`, `**`, "
+            "escaped or `-`/`]`-first bracket members) remain tied by K1/K1' sampling; `!(...)` nested inside another group or followed by "
+            "wildcards is outside the stated scope (see DESIGN §11.5). Known findings KF-D1, KF-D3.",
+    'technique': "Lean 4 compiler-correctness theorem (tidy compiler) + print/parse theorem on the faithful parser model (pass_print) + text/AST "
+                 "correspondence + spec-vs-API search",
+})
+CHECKS['C09'].update({
+    'text': "Theorems (Lean) on the faithful port of WcParse, for EVERY string s: fnmatch mode (C09_escape, C09_not_magic: every fnmatch flag "
+            "record) and — new — path mode with Unix rules (C09_escape_path_items / _language / _globmatch: for every glob flag word without "
+            "MATCHBASE the items emitted for escape(s) are exactly the literal items with one `[/]+` per separator run, the guarded dot under "
+            "NODOTDIR and the trailing `[/]*?`; the regex accepts exactly the names with the same pieces up to ASCII case when case-insensitive, "
+            "the same leading-separator status, a trailing separator when s has one — PathLitEq — and globmatch(s, escape(s)) is True; the D3 "
+            "exception `.\\n` under NODOTDIR is an explicit hypothesis shown necessary); C09_not_magic_path (a pattern is_magic rejects is literal "
+            "in path mode too). Tie: K3 for escape / is_magic, K1 on escaped strings; PathLitEq was also compared with the real library on 4.5 M "
+            "cases by the proof agent. Search: self-match and one-edit neighbours (incl. a trailing newline) of s against escape(s), fnmatch and "
+            "glob, Unix and Windows rules, drive / UNC prefixes; non-magic patterns as literals under every flag subset.",
+    'note': TB + "Windows rules (drives, UNC, `\\\\` separators) and the REALPATH/NODIR branches of globmatch are searched, not proved; brace text "
+            "is literal by bracex's keep_escapes contract (parameter). Open known findings KF-D3p, KF-D28.",
+    'technique': "Lean 4 print-then-parse theorems over all strings on the faithful parser model (fnmatch and Unix path mode) + literal-language "
+                 "characterisation; escape/is_magic correspondence and neighbour search",
+})
+CHECKS['C17'].update({
+    'text': "Theorems (Lean): ci_closed_all — on the faithful port with the real drive scanner, for EVERY pattern string and every "
+            "configuration whose case mode is insensitive (IGNORECASE, or Windows rules without CASE: case_table), the emitted regex accepts a "
+            "name iff it accepts every ASCII-case variant of it (parse_allCi: every inline flag scope the pass can emit is case-insensitive — a "
+            "generic lifting of Re-predicates through the whole pass, ParseLift — then Re.M_ci_sim); ci_pattern_case_all — changing the ASCII case "
+            "of the PATTERN outside bracket expressions does not change the language (lowering commutes with the whole pass and with winDrive; "
+            "for brackets it is false: `[[:alpha:]]` vs `[[:ALPHA:]]`, witnessed); case table (CASE wins), FORCEWIN|FORCEUNIX cancel at bit "
+            "level in both flag transforms. Tie: K1 / K3 under the four flags, both modes, str/bytes; search: FORCEWIN vs Unix+IGNORECASE on the "
+            "separator-normalised name (glob and fnmatch mode), separator interchangeability, drive / UNC literal prefixes.",
+    'note': TB + "win_eq_unix_ci (FORCEWIN = Unix + IGNORECASE on the normalised name) and the drive-prefix clauses are searched, not proved; "
+            "case folding is ASCII (non-ASCII names are outside the (?i) theorems).",
+    'technique': "Lean 4 generic predicate lifting through the faithful parser model + case-closure simulation on the regex semantics + flag "
+                 "tables; platform-relation search",
+})
